@@ -114,6 +114,8 @@ def make_history(base, cfg, r, n_commits=None, kind=None):
         base_rows = 1500 if ps <= 512 else 4000
     if kind == "empty_out":
         base_rows = 3
+    if kind == "flipflop":
+        base_rows = r.choice([5, 40])
     if kind == "rootmove":
         base_rows = r.choice([1, 2, 3, 40])      # a single-page table: after the move none of its old pages is rewritten
 
@@ -124,7 +126,7 @@ def make_history(base, cfg, r, n_commits=None, kind=None):
                 vals[0] = None
             con.execute(f"INSERT INTO t0 ({','.join(cols)}) VALUES ({','.join('?' * ncols)})", vals)
 
-    if kind == "wide_schema":
+    if kind in ("wide_schema", "schema_overflow"):
         for i in range(40):
             con.execute(f"CREATE TABLE s{i:02d} (a INTEGER, b TEXT, c BLOB /* filler {i} */)")
     con.execute("BEGIN")
@@ -147,6 +149,10 @@ def make_history(base, cfg, r, n_commits=None, kind=None):
         for _ in range(3):
             vals = [None if alias else 1] + [bytes(r.randint(0, 255) for _ in range(3 * ps + 17)) for _ in cols[1:]]
             con.execute(f"INSERT INTO t0 ({','.join(cols)}) VALUES ({','.join('?' * ncols)})", vals)
+        # the same for an index b-tree: a WITHOUT ROWID table whose rows spill onto overflow pages
+        con.execute("CREATE TABLE w0 (k INTEGER PRIMARY KEY, v BLOB) WITHOUT ROWID")
+        for i in range(3):
+            con.execute("INSERT INTO w0 VALUES (?, ?)", (i + 1, bytes(r.randint(0, 255) for _ in range(3 * ps + 29))))
     con.execute("COMMIT")
     if kind == "fresh_wal":
         # nothing is checkpointed: the database file stays the empty one-page file and the schema, the schema
@@ -157,18 +163,19 @@ def make_history(base, cfg, r, n_commits=None, kind=None):
         con.execute("PRAGMA wal_checkpoint(TRUNCATE)")
         h.snapshots.append(snapshot(con, tables))
     if n_commits is None and kind in ("checkpoint_restart", "restart_after_rollback", "passive_checkpoint", "odd_rowids",
-                                      "wide_schema", "freelist_drain", "deep_append", "ddl"):
+                                      "wide_schema", "schema_overflow", "freelist_drain", "deep_append", "ddl", "flipflop", "overflow_inplace"):
         n_commits = r.randint(3, 6)      # these shapes need a few commits to show at all
     n_commits = n_commits if n_commits is not None else r.randint(1, 6)
     wal_size = mx_frame(work)
     stale_generation = False
+    flip = {}
     for k in range(n_commits):
         op = kind
         if kind in ("plain", "checkpoint_restart", "restart_after_rollback", "passive_checkpoint", "grow_shrink", "fresh_wal"):
             op = r.choice(["insert", "update", "delete", "mixed"])
         con.execute("BEGIN")
         ids = [x[0] for x in con.execute("SELECT rowid FROM t0")]
-        if op == "insert" or (not ids and op not in ("freelist_drain", "odd_rowids", "wide_schema", "deep_append", "empty_out")):
+        if op == "insert" or (not ids and op not in ("freelist_drain", "odd_rowids", "wide_schema", "schema_overflow", "deep_append", "empty_out")):
             ins(r.randint(1, 30), big=r.random() < 0.3)
         elif op == "update":
             for rid in r.sample(ids, min(len(ids), r.randint(1, 8))) + ([0] if 0 in ids else []):
@@ -199,6 +206,14 @@ def make_history(base, cfg, r, n_commits=None, kind=None):
                 con.execute(f"UPDATE t0 SET {cols[1]}=? WHERE rowid=?", (bytes(b), rid))
             else:
                 ins(2)
+            # same-size update of an overflowing WITHOUT ROWID row (SQLite overwrites the changed overflow page only; the
+            # leaf page holding the cell keeps its older version)
+            wk = k % 3 + 1
+            wv = con.execute("SELECT v FROM w0 WHERE k=?", (wk,)).fetchone()
+            if wv is not None:
+                b = bytearray(wv[0])
+                b[[ps, -3, len(b) // 2][(k + 1) % 3 if k else 0]] ^= 0xFF
+                con.execute("UPDATE w0 SET v=? WHERE k=?", (bytes(b), wk))
         elif op == "ddl":
             step = k % 4
             if step == 0:
@@ -228,6 +243,26 @@ def make_history(base, cfg, r, n_commits=None, kind=None):
                     con.execute(f"DROP TABLE {victims[0]}")
                 else:
                     ins(3)
+        elif op == "flipflop":
+            # rows that return to an earlier, byte-identical state: a value toggled there and back, a row deleted and
+            # inserted again with the same row id and values (each state is reported once per change, every time)
+            if not flip:
+                flip["a"], flip["b"] = ids[0], ids[-1]
+                flip["col"] = cols[-1]
+                flip["v0"] = con.execute(f"SELECT {flip['col']} FROM t0 WHERE rowid=?", (flip["a"],)).fetchone()[0]
+                flip["row"] = con.execute(f"SELECT rowid, {','.join(cols)} FROM t0 WHERE rowid=?", (flip["b"],)).fetchone()
+            if k % 2 == 0:
+                con.execute(f"UPDATE t0 SET {flip['col']}=? WHERE rowid=?", ("toggled", flip["a"]))
+                if flip["b"] != flip["a"]:
+                    con.execute("DELETE FROM t0 WHERE rowid=?", (flip["b"],))
+            else:
+                con.execute(f"UPDATE t0 SET {flip['col']}=? WHERE rowid=?", (flip["v0"], flip["a"]))
+                if flip["b"] != flip["a"]:
+                    row = flip["row"]
+                    if alias:
+                        con.execute(f"INSERT INTO t0 ({','.join(cols)}) VALUES ({','.join('?' * ncols)})", [row[0]] + list(row[2:]))
+                    else:
+                        con.execute(f"INSERT INTO t0 (rowid,{','.join(cols)}) VALUES (?,{','.join('?' * ncols)})", list(row))
         elif op == "empty_out":
             # single-frame transactions whose page image ends in a long run of zero bytes: a one-page table emptied
             # (secure_delete zeroes the freed cells) and refilled
@@ -244,6 +279,23 @@ def make_history(base, cfg, r, n_commits=None, kind=None):
                 con.execute(f"DROP TABLE s{k + 10:02d}")
             else:
                 con.execute(f"CREATE TABLE n{k} (a, b)")
+        elif op == "schema_overflow":
+            # a schema row so long that it spills onto overflow pages, on a leaf of a schema b-tree with an interior root:
+            # the set of schema pages changes while page 1's b-tree does not; then a same-length RENAME COLUMN overwrites
+            # ONE of those overflow pages in place; then the table is dropped and its pages are reused by table data
+            step = k % 4
+            bigcols = ", ".join(f"column_number_{i:03d} text" for i in range(60)) + ", pad" + "x" * 40
+            if step == 0:
+                if k:
+                    ins(12)
+                con.execute(f"CREATE TABLE big{k} ({bigcols})")
+                con.execute(f"INSERT INTO big{k} (column_number_000, column_number_059) VALUES ('x', 'y')")
+            elif step == 1:
+                con.execute(f"ALTER TABLE big{k - 1} RENAME COLUMN column_number_055 TO renamed_column_55")
+            elif step == 2:
+                con.execute(f"INSERT INTO big{k - 2} (column_number_000, renamed_column_55) VALUES ('p', 'q')")
+            else:
+                con.execute(f"DROP TABLE big{k - 3}")
         elif op == "odd_rowids":
             # row ids 0, -1, -(2**40): update, delete and re-insert them
             c = cols[-1]
